@@ -2,7 +2,27 @@
    program (corollary of resolution_correct and of Rename.resolve_rename, on the same fragment). *)
 From Coq Require Import ZifyBool.
 From Verif Require Import Common.Base Common.Tactics JsScope.Model JsScope.Spec JsScope.HeapLemmas
-  JsScope.Resolve1 JsScope.Main JsScope.Rename.
+  JsScope.Resolve1 JsScope.Main JsScope.Rename JsScope.AuxX.
+
+(* resolution_correct for the fragment: the hypothesis on auxiliary scopes follows from the side conditions *)
+Theorem resolution_correct_x p :
+  core_x p = true -> program_ok p = true -> Z.of_nat (occurrences p) < 65536 ->
+  exists ps,
+    run_program p = Running ps /\
+    let st := pst ps in
+    let vs := map (root_of st) (rev (plog ps)) in
+    let ts := spec_resolve p in
+    length vs = length ts /\
+    (forall i j, (i < length vs)%nat -> (j < length vs)%nat ->
+       (nth i vs O = nth j vs O <-> nth i ts (TGlobal 0) = nth j ts (TGlobal 0))) /\
+    (forall i x, (i < length vs)%nat -> nth i ts (TGlobal 0) = TGlobal x ->
+       In (nth i vs O) (sundeclared (sc_of st O)) /\ vdecl (vget st (nth i vs O)) = NoDecl
+       /\ vname (vget st (nth i vs O)) = x) /\
+    (forall i s a x, (i < length vs)%nat -> nth i ts (TGlobal 0) = TBind s a x ->
+       vdecl (vget st (nth i vs O)) <> NoDecl /\ vname (vget st (nth i vs O)) = x) /\
+    (forall i, (i < length vs)%nat ->
+       vuses (vget st (nth i vs O)) = Z.of_nat (count_occ Nat.eq_dec vs (nth i vs O))).
+Proof. intros Hc Hok Hocc. exact (resolution_correct_core p Hc Hok (core_x_aux_distinct p Hc) Hocc). Qed.
 
 Lemma target_eqb_eq a b : target_eqb a b = true <-> a = b.
 Proof.
